@@ -10,6 +10,7 @@
 #include <wchar.h>
 #include <wctype.h>
 
+int g_model_noslack;
 static size_t E(const unsigned char *p, int w, size_t i) { return gc_elem(p, w, i); }
 static void P(unsigned char *p, int w, size_t i, size_t v) {
     if (w == 1) p[i] = (unsigned char)v;
@@ -118,10 +119,16 @@ void ref_model(const row_t *row, const gcase_t *c, const unsigned char *d0, cons
         /* like memccpy(): bytes up to and including the first c are copied (at most n) */
         size_t k;
         if (c->n == 0 || c->n > n) return;
+        if (c->val > 255 || c->val < 0) return;      /* memccpy converts c to unsigned char; the doc does not define larger values */
         for (k = 0; k < c->n; k++) if (s0[k] == (unsigned char)c->val) break;
         if (k == c->n) return;                 /* stop character absent: truncation rules not modelled */
         memcpy(x, s0, k + 1);
-        m->cmp_elems = k + 1; m->check_dest = 1; exp_ok(m, EOK);
+        m->cmp_elems = k + 1;
+        if (!g_model_noslack) { /* doc: with null-slack the rest (max. n bytes) is cleared */
+            for (i = k + 1; i < c->n; i++) x[i] = 0;
+            m->cmp_elems = c->n;
+        }
+        m->check_dest = 1; exp_ok(m, EOK);
         return;
     }
     /* ------------------------------ FILL ------------------------------ */
@@ -210,7 +217,8 @@ void ref_model(const row_t *row, const gcase_t *c, const unsigned char *d0, cons
     }
     if (row->fl & F_DIN) { if (dl >= n) return; }       /* dest must be a string within dmax */
     if ((row->fl & F_SRCSTR) && c->scontent != SC_STR) return;
-    if ((row->fl & F_SRCSTR) && (row->fl & F_SLEN) && sl >= c->slen) return; /* src string must end inside slen */
+    if ((row->fl & F_SRCSTR) && (row->fl & F_SLEN) && sl >= c->slen &&
+        strcmp(nm, "strspn_s") && strcmp(nm, "strcspn_s") && strcmp(nm, "strpbrk_s")) return; /* src string must end inside slen (the span functions use the first slen characters of a longer set) */
     if (!strcmp(nm, "strcmp_s") || !strcmp(nm, "strcoll_s") || !strcmp(nm, "wcscmp_s") || !strcmp(nm, "wcscoll_s") || !strcmp(nm, "strcasecmp_s")) {
         long r = 0;
         int ci = !strcmp(nm, "strcasecmp_s");
